@@ -147,6 +147,10 @@ def asNum : Val → M NV | .num v => .ok v | _ => .error .typeError
 def asBool : Val → M Bool | .bool b => .ok b | _ => .error .typeError
 def asList (μ : Heap) : Val → M (List Val) | .list r => heapGet μ r | _ => .error .typeError
 
+/-- what a subscript `v[i]` reads from: the interpreter emits a plain Python subscript, so a tuple is indexed like a
+list (the bundling passes of the FPCore back end rely on it: `while t[1] < 3:`) -/
+def asSeq (μ : Heap) : Val → M (List Val) | .list r => heapGet μ r | .tuple vs => .ok vs | _ => .error .typeError
+
 /-- `_cvt_index` -/
 def asIndex (v : Val) : M Nat := do
   let n ← asNum v
@@ -314,7 +318,7 @@ def evalE (Φ : Funs) : Nat → Env → Heap → Ctx → Expr → M (Val × Heap
     | .index a i => do
       let (av, μ1) ← evalE Φ fuel σ μ C a
       let (iv, μ2) ← evalE Φ fuel σ μ1 C i
-      let l ← asList μ2 av
+      let l ← asSeq μ2 av
       let k ← asIndex iv
       match l[k]? with | some v => .ok (v, μ2) | none => .error .indexError
     | .slice a s t => do
